@@ -22,7 +22,9 @@ def make_scratch():
     """scratch copy of /repo's committed tree (HEAD), so that a seeded patch temporarily applied to the working tree by seedcheck.py cannot leak in"""
     import subprocess
     d = tempfile.mkdtemp(prefix="ttv-selftest-")
-    r = subprocess.run("git -C %s archive HEAD src build.rs Cargo.toml Cargo.lock | tar -x -C %s" % (common.REPO, d), shell=True, capture_output=True, text=True)
+    # Cargo.lock is not tracked in the repository: it is copied from the working tree (no seed touches it)
+    r = subprocess.run("set -o pipefail; git -C %s archive HEAD src build.rs Cargo.toml | tar -x -C %s && cp %s/Cargo.lock %s/" % (common.REPO, d, common.REPO, d),
+                       shell=True, capture_output=True, text=True, executable="/bin/bash")
     if r.returncode != 0:
         for name in ("src", "build.rs", "Cargo.toml", "Cargo.lock"):
             s = os.path.join(common.REPO, name)
